@@ -81,7 +81,8 @@ class Gen:
             if k < 0.6:
                 return sympy.sympify(self.mag())
             if k < 0.8:
-                return rng.choice([units.kilo, units.milli, units.mega, units.micro]) * self.mag()
+                from sympy.physics.units.prefixes import kibi, mebi, gibi  # pylint: disable=import-outside-toplevel
+                return rng.choice([units.kilo, units.milli, units.mega, units.micro, kibi, mebi, gibi, units.deci, units.hecto]) * self.mag()
             return Quantity(self.mag())
         if r < 0.08:
             # a zero-valued term (any dimension); +-oo / nan / 0.0 terms live in the curated boundary stream because
@@ -236,6 +237,11 @@ def boundary(rng, k=None):
         lambda: Pow(Min(Quantity(4 * m**2), z, evaluate=False), Rational(1, 2)),
         lambda: units.kilo * units.joule,
         lambda: (units.milli * units.newton)**2,
+        # binary prefixes: the scale is a power of TWO (Prefix.base), kept as a Prefix node in `number * prefix * unit`
+        lambda: Mul(3, sympy.physics.units.prefixes.kibi, units.meter, evaluate=False),
+        lambda: 5 * sympy.physics.units.prefixes.kibi,
+        lambda: sympy.physics.units.prefixes.gibi**2 * units.second,
+        lambda: 4 * sympy.physics.units.prefixes.mebi * units.joule,
         lambda: Quantity(4 * m**3 / s)**Rational(3, 2),
         lambda: Add(inf, a, evaluate=False),
         lambda: Mul(z, units.meter, units.second, evaluate=False),
